@@ -1345,6 +1345,7 @@ func c19Main(s *c19State) error {
 						return
 					}
 					cov.AddMC(res.Distinct, res.Generated)
+					s.dbg("trace chunk %d (MaxC %d): %d lines, %d distinct / %d generated states, %.1fs", i, cks[i].maxC, len(cks[i].lines), res.Distinct, res.Generated, res.Wall)
 					if !(res.OK && hw == len(cks[i].lines)) {
 						line := hw + 1
 						if line > len(cks[i].lines) {
